@@ -40,6 +40,10 @@ class A(Event):
     complete = True
 
 
+class A2(Event):
+    pass
+
+
 class B(Event):
     pass
 
@@ -369,6 +373,121 @@ def make_timeout_harness(max_callee_steps=4, max_ticks=16):
     return harness
 
 
+def make_two_waiters_harness(max_callee_steps=3, max_ticks=20):
+    """Two handlers are suspended on the same event B: A1 with a symbolic timeout T, A2 without one."""
+    def harness(g):
+        log = []
+        st = {'gen_events': 0, 'suspend_at': None, 'ev': B('b')}
+        res = {1: {'resumed': 0, 'outcome': None}, 2: {'resumed': 0, 'outcome': None}}
+        T = g.int('T', -1, 3)
+        k = g.choose('callee_steps', max_callee_steps + 1)
+        how1 = g.pick('how1', ['call', 'waito', 'waitn'])
+        how2 = g.pick('how2', ['waito', 'waitn'])
+
+        class Comp(BaseComponent):
+            @handler('A')
+            def on_a(self, event, tag):
+                ev = st['ev']
+                st['suspend_at'] = st['gen_events']
+                r = res[1]
+                try:
+                    if how1 == 'call':
+                        x = yield self.call(ev, timeout=T)
+                    elif how1 == 'waito':
+                        self.fire(ev)
+                        x = yield self.wait(ev, timeout=T)
+                    else:
+                        self.fire(ev)
+                        x = yield self.wait('B', timeout=T)
+                    r['resumed'] += 1
+                    r['outcome'] = ('value', x.value if x is not None else None, ('b-end',) in log)
+                except M.TimeoutError:
+                    r['resumed'] += 1
+                    r['outcome'] = ('timeout', st['gen_events'] - st['suspend_at'])
+                yield ('a', 'done')
+
+            @handler('A2')
+            def on_a2(self, event, tag):
+                r = res[2]
+                if how2 == 'waito':
+                    x = yield self.wait(st['ev'])
+                else:
+                    x = yield self.wait('B')
+                r['resumed'] += 1
+                r['outcome'] = ('value', x.value if x is not None else None, ('b-end',) in log)
+                yield ('a2', 'done')
+
+            @handler('B')
+            def on_b(self, event, tag):
+                for i in range(k):
+                    yield None
+                log.append(('b-end',))
+                yield ('b', 'result')
+
+            @handler('generate_events', priority=5)
+            def on_ge(self, event):
+                st['gen_events'] += 1
+
+            @handler('exception', channel='*')
+            def on_exc(self, etype, evalue, tb, handler=None, fevent=None):
+                log.append(('exception', repr(evalue)))
+
+        comp = Comp()
+        comp.flush()
+        before = snapshot_handlers(comp)
+        comp._running = True
+        import threading
+        comp._executing_thread = threading.current_thread()
+        # the waiter without timeout is suspended first (steps of generator handlers started in the same tick run in no
+        # particular order, and waiting for an event that is already over is not what is being checked)
+        st['ev'].channels = ('*',)
+        va2 = comp.fire(A2('r1'))
+        comp.tick(0)
+        comp.tick(0)
+        va = comp.fire(A('r0'))
+        for _ in range(max_ticks):
+            comp.tick(0)
+        comp._running = False
+        comp._executing_thread = None
+        w = {'how1': how1, 'how2': how2}
+        detail = 'how1=%s how2=%s k=%d T=%s outcomes=%s log=%s' % (how1, how2, k, g.value_of(T), {i: r['outcome'] for i, r in res.items()}, log)
+        g.note({'how1': how1, 'how2': how2, 'callee_steps': k, 'T': g.value_of(T)})
+        if [x for x in log if x[0] == 'exception']:
+            g.fail('unexpected-exception', w, detail)
+            return
+        for i in (1, 2):
+            r = res[i]
+            wi = dict(w)
+            wi['waiter'] = i
+            if r['resumed'] == 0:
+                g.fail('caller-never-resumed', wi, detail)
+                return
+            if r['resumed'] > 1:
+                g.fail('caller-resumed-twice', wi, detail)
+                return
+            if r['outcome'][0] == 'timeout':
+                if i == 2:
+                    g.fail('timeout-without-timeout', wi, detail)
+                    return
+                g.check(g.And(T >= 0, T <= r['outcome'][1]), 'timeout-too-early', wi, detail)
+            else:
+                if r['outcome'][1] != ('b', 'result'):
+                    g.fail('received-wrong-result', wi, detail)
+                if not r['outcome'][2]:
+                    g.fail('resumed-before-callee-finished', wi, detail)
+        if va.value != ('a', 'done') or va2.value != ('a2', 'done'):
+            g.fail('root-value', w, detail + ' va=%r va2=%r' % (va.value, va2.value))
+        if comp._tasks:
+            g.fail('tasks-left', w, detail)
+        after = snapshot_handlers(comp)
+        if after != before:
+            extra = {kk: [getattr(h, '__name__', '?') for h in v - before.get(kk, set())] for kk, v in after.items() if v - before.get(kk, set())}
+            w2 = dict(w)
+            w2['timed_out'] = res[1]['outcome'][0] == 'timeout'
+            g.fail('handlers-left', w2, 'extra=%s %s' % (extra, detail))
+    return harness
+
+
 ENC = [M.Manager.waitEvent, M.Manager.callEvent, M.Manager.processTask, M.Manager.registerTask, M.Manager.unregisterTask,
        M.Manager._eventDone, M.Manager.tick, M.Manager.addHandler, M.Manager.removeHandler]
 
@@ -395,8 +514,12 @@ def parts(tier):
                  encoded=ENC, budget_s=80),
             Part('timeout', make_timeout_harness(), bounds={'T': '[-1,3] (z3 Int)', 'callee_yields': '0..4', 'how': ['call', 'wait by object', 'wait by name', 'wait by name, never fired']},
                  encoded=[M.Manager.waitEvent, M.Manager.processTask, M.Manager.tick], budget_s=60),
+            Part('two-waiters', make_two_waiters_harness(), bounds={'T': '[-1,3] (z3 Int)', 'callee_yields': '0..3', 'waiters': 'one with timeout T (call / wait by object / by name), one without (by object / by name), on the same event'},
+                 encoded=[M.Manager.waitEvent, M.Manager.processTask, M.Manager.tick], budget_s=60),
         ]
     return [
+        Part('two-waiters', make_two_waiters_harness(max_callee_steps=6, max_ticks=30), bounds={'T': '[-1,3] (z3 Int)', 'callee_yields': '0..6', 'waiters': 'one with timeout T, one without, on the same event'},
+             encoded=ENC, budget_s=600),
         Part('programs', make_harness(steps_a=3, steps_b=2, steps_c=2), bounds={'steps_A': 3, 'steps_B': 2, 'steps_C': 2, 'roots': 1}, encoded=ENC, budget_s=1200),
         Part('two-roots', make_harness(steps_a=2, steps_b=1, steps_c=1, roots=2), bounds={'steps_A': 2, 'steps_B': 1, 'steps_C': 1, 'roots': 2}, encoded=ENC, budget_s=1200),
         Part('timeout', make_timeout_harness(max_callee_steps=6, max_ticks=24), bounds={'T': '[-1,3] (z3 Int)', 'callee_yields': '0..6'},
